@@ -133,6 +133,24 @@ def path_records(args):
             except Exception:  # noqa
                 size_ok = dig_ok = False
             recs.append({'kind': 'path', 'len': L, 'size_ok': bool(size_ok), 'digests_ok': bool(dig_ok)})
+            # the reported size is the number of bytes READ, for every hash set (also the empty one): the file
+            # grows after its metadata has been looked at and before the content is consumed
+            for hs in ([], names[:1], names):
+                try:
+                    g = gem.gemato.verify.get_file_metadata(p, hs)
+                    pre = [next(g) for _ in range(5)]          # exists, dev, type, st_size, mtime
+                    with open(p, 'ab') as f:
+                        f.write(b'XYZ')
+                    ck = next(g)
+                    g.close()
+                    cur = data + b'XYZ'
+                    size_ok = ck.get('__size__') == len(cur) and pre[3] == len(data)
+                    dig_ok = all(ck.get(n) == reference(n, cur) for n in hs)
+                except Exception:  # noqa
+                    size_ok = dig_ok = False
+                recs.append({'kind': 'path', 'len': L, 'size_ok': bool(size_ok), 'digests_ok': bool(dig_ok)})
+                with open(p, 'wb') as f:
+                    f.write(data)
             os.unlink(p)
     finally:
         shutil.rmtree(d, ignore_errors=True)
